@@ -111,14 +111,34 @@ def check(repo: Repo, run: Run) -> None:
     outer = rec.loops[outer_ids[-1]]
     size_t = T("call", (T("global", ("construct.Int64ul.parse_stream",)), (reader,), ()))
     want_iter = T("call", (T("builtin", ("range",)), (T("bin", ("//", size_t, const(ks))),), ()))
-    if inner.kind != "for" or inner.iter is None:
+    counted = None
+    if inner.kind == "while" and inner.test is not None and not inner.exits and not inner.continue_envs and not inner.break_envs:
+        # `left = n; while left > 0: ...; left -= 1` runs max(n, 0) times, as `for _ in range(n)` does: the test compares the
+        # loop's own counter with 0, and the only thing an iteration does to the counter is one unconditional `- 1`
+        atom, apol = render.norm_bool(inner.test)
+        var = None
+        if apol and atom.op == "cmp" and atom.a[0] in (">", "!=") and atom.a[2] == const(0):
+            var = atom.a[1]
+        elif apol and atom.op == "cmp" and atom.a[0] == "<" and atom.a[1] == const(0):
+            var = atom.a[2]
+        elif apol and atom.op == "widen":
+            var = atom
+        if var is not None and var.op == "widen" and var.a[1] == inner.id:
+            full = inner.carried.get(var.a[0])
+            if full is not None and full.op == "widen" and len(full.a[2]) == 2:
+                init, step = full.a[2]
+                if step.op == "bin" and step.a[0] == "-" and step.a[2] == const(1) and step.a[1].op == "widen" \
+                        and step.a[1].a[:2] == var.a[:2]:
+                    counted = T("call", (T("builtin", ("range",)), (init,), ()))
+    if counted is None and (inner.kind != "for" or inner.iter is None):
         raise AnalysisError("parse_v3: the record loop of a chunk is not a `for ... in range(<count>)` loop (a counter driven "
                             "while loop or similar): how many records it reads per chunk is not decided")
-    run.ob("R1", MOD, "KdBufParser.parse_v3", "record loop runs chunk_size // KEVENT_SIZE times", inner.iter == want_iter,
-           "" if inner.iter == want_iter else
-           f"the record loop iterates over {sym.pretty(inner.iter)[:100]} instead of range(<parsed chunk size> // {ks}): events of a "
+    inner_iter = counted if counted is not None else inner.iter
+    run.ob("R1", MOD, "KdBufParser.parse_v3", "record loop runs chunk_size // KEVENT_SIZE times", inner_iter == want_iter,
+           "" if inner_iter == want_iter else
+           f"the record loop iterates over {sym.pretty(inner_iter)[:100]} instead of range(<parsed chunk size> // {ks}): events of a "
            f"chunk are dropped or bytes of the next section are decoded as events",
-           facts={"iter": sym.pretty(inner.iter)[:120]}, line=inner.lineno)
+           facts={"iter": sym.pretty(inner_iter)[:120]}, line=inner.lineno)
     inner_pc = [c for c in ey.pc if c not in streams.loop_test_conditions(rec, ey.loops)]
     run.ob("R1", MOD, "KdBufParser.parse_v3", "every record of a chunk is yielded", not inner_pc,
            f"the event yield depends on {[sym.pretty(c)[:50] for c, _ in inner_pc]}: some records are not reported",
@@ -195,6 +215,13 @@ def check(repo: Repo, run: Run) -> None:
     log_call = T("attr", (T("class", ("pykdebugparser.os_log_event.OsLogEvent",)), "from_raw_log_event"))
     log_yields = [y for y in other_yields if y.value.op == "call" and y.value.a[0] == log_call]
     strange = [y for y in other_yields if y not in log_yields]
+    unread = [y for y in strange if any(x.op in ("elem", "widen", "unknown") or (x.op == "call" and x.a[0].op == "func")
+                                        for x in sym.walk(y.value))]
+    if unread:
+        # an item of a generator / helper object the interpreter did not reduce (`for rec in log_records.decoded(): yield rec`):
+        # what is yielded there is not known - neither "a decoded log record" nor "something else"
+        raise AnalysisError(f"parse_v3 yields a value of unknown provenance at line {unread[0].lineno}: "
+                            f"{sym.pretty(unread[0].value)[:100]}; whether it is a decoded log record is not decided")
     run.ob("R2", MOD, "KdBufParser.parse_v3", "only events and decoded log records are yielded", not strange,
            f"parse_v3 also yields {[sym.pretty(y.value)[:60] for y in strange]}", nontrivial=False)
     ok = len(log_yields) == 1 and log_yields[0].seq > outer.body_seq[1]
